@@ -129,6 +129,53 @@ def index_replay(ctx: Ctx) -> int:
     return n
 
 
+def _fusion_job(cases):
+    from harness.fusionjobs import run_cases
+
+    return run_cases(cases)
+
+
+def fusion_replay(ctx: Ctx) -> int:
+    """J2O_Fusion: reductions at the boundary of the lowering-time fusions and order operations on ties."""
+    r = run_tlc("MC_Fusion", "MC_Fusion.cfg", timeout=900, workers=2)
+    tlc_must_pass(r, "J2O_Fusion")
+    ctx.add_tlc(r, "J2O_Fusion (FusionSound, DigitizeLaws)")
+    if r.violated:
+        raise MachineryError(f"J2O_Fusion: {r.violated} violated")
+    cleanup_tlc(r)
+    for dev, inv in (("pow_exponent_truncated", "FusionSound"), ("mul_any_operands", "FusionSound"), ("digitize_strict", "DigitizeLaws")):
+        rd = run_tlc("MC_Fusion", f"MC_FusionDev_{dev}.cfg", timeout=600, workers=2, coverage=False)
+        if rd.violated != inv:
+            raise MachineryError(f"J2O_Fusion deviation {dev} should violate {inv} (non-vacuity), got {rd.violated!r}")
+        cleanup_tlc(rd)
+    re_ = run_tlc("MC_Fusion", "MC_FusionEmit.cfg", timeout=600, workers=1, coverage=False)
+    cases = parse_tlc_values(re_.output.splitlines())
+    cleanup_tlc(re_)
+    if len(cases) < 80:
+        raise MachineryError("J2O_Fusion emitted too few cases")
+    k = 4
+    res = run_tasks([{"fn": "harness.checks.c01:_fusion_job", "args": {"cases": cases[i::k]}, "timeout": 1500} for i in range(k)], nworkers=k, timeout=3000)
+    n = 0
+    for task, out in res:
+        if out.get("status") != "ok":
+            raise MachineryError(f"fusion replay worker failed: {str(out)[:700]}")
+        o = out["result"]
+        n += o["n"]
+        if o["spec_vs_jax"]:
+            raise MachineryError("J2O_Fusion disagrees with JAX eager (specification bug): " + json.dumps(o["spec_vs_jax"][:2])[:600])
+        for ef in o["export_failed"]:
+            ctx.extra.setdefault("fusion_cases_rejected_at_export", []).append({"case": ef["case"], "error": ef["error"][:140]})
+        for pb in o["problems"]:
+            c = pb["case"]
+            ctx.violation({"engine": "fusion_boundary", "case": c, "dtype": pb["dtype"], "what": pb["what"]},
+                          f"{c} ({pb['dtype']}): {pb['detail'][:260]} (model ops {pb.get('ops')})", pb)
+        for c in task["args"]["cases"]:
+            ctx.count(("fusion", json.dumps(c["c"], sort_keys=True)), nontrivial=True, n=0)
+    ctx.extra["fusion_cases_run"] = n
+    ctx.cov["evaluations"] += n
+    return n
+
+
 def run(ctx: Ctx) -> None:
     rng = random.Random(ctx.seed)
     r = run_tlc("MC_OpSem", "MC_OpSem.cfg", timeout=900, workers=1)
@@ -198,6 +245,7 @@ def run(ctx: Ctx) -> None:
                 ctx.sample({"kind": "corpus", "testcase": rec["key"], "input_vectors_compared": rec["draws"], "draws_outside_domain": rec["discarded"], "problems": rec["problems"][:2]})
     axis_operator_replay(ctx, "direct", "axis_direct")
     index_replay(ctx)
+    fusion_replay(ctx)
     ctx.extra["corpus_status"] = stats
     ctx.extra["input_vectors_compared"] = draws
     ctx.extra["lattice_draws_outside_domain"] = discarded
